@@ -4,6 +4,7 @@ import (
 	"fmt"
 	"math/big"
 	"sort"
+	"strconv"
 	"strings"
 
 	"verif/harness/simkit"
@@ -195,6 +196,11 @@ func (d *dataWorld) populate(tp *simkit.Tape, stats map[string]int) bool {
 			}
 			sql := insertSQL(t, [][]sqlmini.Value{row}, false)
 			if o := d.run(sql); o.err != nil {
+				if t == d.global && strings.Contains(o.err.Error(), "doesn't exist") {
+					// a backend that holds no copy of the global table was asked to write one
+					d.fail("C04-write-not-on-every-copy-once", "%q on the global table failed: %v; the copies are %v, the statement went to %q", sql, o.err, d.globalCopies(), o.recvSQL)
+					return false
+				}
 				d.fail("harness", "populating %s: %v", t, o.err)
 				return false
 			}
@@ -877,8 +883,29 @@ func (d *dataWorld) opGlobal(tp *simkit.Tape, stats map[string]int) {
 	default:
 		kind, sql, write = "select", fmt.Sprintf("select count(*) from %s", name), false
 	}
+	if tp.Chance(1, 4) {
+		// columns qualified with database and table outside plain comparisons: select list, ORDER BY, IS NULL, a function argument, SET
+		q := d.gdb + "." + g
+		switch tp.Choose(4) {
+		case 0:
+			kind, sql, write = "select", fmt.Sprintf("select %s.id, %s.v from %s where %s.name is not null order by %s.id", q, q, q, q, q), false
+		case 1:
+			kind, sql, write = "select", fmt.Sprintf("select %s.id from %s where abs(%s.v) = %d", q, q, q, tp.Choose(20)), false
+		case 2:
+			kind, sql, write = "update", fmt.Sprintf("update %s set %s.v = %d where %s.name is null", q, q, tp.Choose(90), q), true
+		default:
+			kind, sql, write = "delete", fmt.Sprintf("delete from %s where abs(%s.v) = %d", q, q, tp.Choose(30)), true
+		}
+		name = q
+		stats["global-fully-qualified-columns"]++
+	}
 	copies := d.globalCopies()
+	d.brokenRewrite = ""
 	o := d.run(sql)
+	if d.brokenRewrite != "" {
+		d.fail("C04-statement-for-a-copy-names-the-logical-database", "%s on the global table %q: %s", kind, sql, d.brokenRewrite)
+		return
+	}
 	d.r.Sched("op", fmt.Sprintf("global-%s/%v", kind, o.err == nil))
 	d.r.Logf("%q -> %s; backends: %q", sql, errText(o.err), o.recvSQL)
 	stats["global-"+kind]++
@@ -942,6 +969,11 @@ func (d *dataWorld) opGlobal(tp *simkit.Tape, stats map[string]int) {
 func (d *dataWorld) opFastPath(tp *simkit.Tape, stats map[string]int) {
 	rule := d.rule
 	t := rule.table
+	onChild := d.child != "" && tp.Chance(1, 3)
+	if onChild {
+		t = d.child // a linked table is a sharded table too
+		stats["fast-path-probe-on-linked-child"]++
+	}
 	name := t
 	switch tp.Choose(8) {
 	case 0:
@@ -976,6 +1008,20 @@ func (d *dataWorld) opFastPath(tp *simkit.Tape, stats map[string]int) {
 	case 0, 1:
 		routeCond = "v > -100"
 		sql = fmt.Sprintf("select id, name from %s where v > -100", name)
+		if tp.Chance(1, 6) {
+			// a long statement: the sharded table is named far behind the beginning of the text
+			pad := strings.Repeat("p", []int{5000, 17000, 40000}[tp.Choose(3)])
+			sql = fmt.Sprintf("select id, name, '%s' as pad from %s where v > -100", pad, name)
+			if tp.Chance(1, 2) {
+				var ids []string
+				for i := 0; i < 4000; i++ {
+					ids = append(ids, strconv.Itoa(700000+i))
+				}
+				sql = fmt.Sprintf("select id, name from %s where id not in (%s) and id in (select id from %s)", plain, strings.Join(ids, ","), name)
+				routeCond = ""
+			}
+			stats["fast-path-probe-long-statement"]++
+		}
 	case 2:
 		sql = fmt.Sprintf("select a.id from %s a, %s b where a.id = b.id", plain, name)
 	case 3:
@@ -994,6 +1040,9 @@ func (d *dataWorld) opFastPath(tp *simkit.Tape, stats map[string]int) {
 	}
 	if tp.Chance(1, 4) {
 		sql = strings.Replace(sql, "select ", "SELECT\t", 1)
+	}
+	if onChild {
+		routeCond = "" // (the routing oracle below knows the parent's placement only)
 	}
 	var hold []string
 	if routeCond != "" {
